@@ -1,22 +1,23 @@
 #!/bin/bash
 # Builds the framework from files on disk only (offline): Lean project (all registered property modules and
 # drivers), extractors and harness binaries.  Checks rebuild what changed on every run; this only warms caches.
-set -u
+set -u -o pipefail
 cd "$(dirname "$0")"
 export GOFLAGS=-mod=mod GOPROXY=off
 unset GOTOOLCHAIN GOSUMDB
 mkdir -p bin evidence replays lean/SeqVerif/Extracted
 rc=0
-for cfg in props/C*.json; do
-  id=$(basename "$cfg" .json); low=$(echo "$id" | tr A-Z a-z)
+IDS=$(jq -r '.checks[].property_id' MANIFEST.json)   # only the properties claimed in the manifest
+for id in $IDS; do
+  low=$(echo "$id" | tr A-Z a-z)
   if [ -d extract/cmd/$low ]; then
     (cd extract && go build -o ../bin/x-$low ./cmd/$low && ../bin/x-$low -repo "${VERIF_REPO:-/repo}" -out ../lean/SeqVerif/Extracted/$id.lean) || rc=1
   fi
 done
 cp "${VERIF_REPO:-/repo}/go.sum" harness/go.sum
-for cfg in props/C*.json; do
-  id=$(basename "$cfg" .json); low=$(echo "$id" | tr A-Z a-z)
-  (cd lean && lake build SeqVerif.Props.$id drv_$low 2>&1 | tail -3) || rc=1
+for id in $IDS; do
+  low=$(echo "$id" | tr A-Z a-z)
+  (cd lean && flock .build.lock lake build SeqVerif.Props.$id drv_$low 2>&1 | tail -3) || rc=1
   if [ -d harness/cmd/$low ]; then
     (cd harness && go build -tags verif -o ../bin/vh-$low ./cmd/$low) || rc=1
   fi
